@@ -95,8 +95,16 @@ func runCell(c C20Case, cell c20Cell, base *biscuit.Biscuit, priv ed25519.Privat
 	}()
 	fr = &faultReader{data: stream, k: cell.K, chunk: cell.Chunk, kind: cell.Kind, eofInline: cell.Inline}
 	switch cell.Op {
-	case "builder":
-		b := biscuit.NewBuilder(priv, biscuit.WithRNG(fr))
+	case "builder", "builder+keyid", "builder+keyid-first":
+		var b biscuit.Builder
+		switch cell.Op {
+		case "builder+keyid":
+			b = biscuit.NewBuilder(priv, biscuit.WithRNG(fr), biscuit.WithRootKeyID(7))
+		case "builder+keyid-first":
+			b = biscuit.NewBuilder(priv, biscuit.WithRootKeyID(0), biscuit.WithRNG(fr))
+		default:
+			b = biscuit.NewBuilder(priv, biscuit.WithRNG(fr))
+		}
 		for _, f := range c.Authority.Facts {
 			if e := b.AddAuthorityFact(bridge.ToFact(f)); e != nil {
 				return nil, fr, fmt.Errorf("harness: %w", e), "harness: cannot add fact"
@@ -144,7 +152,7 @@ func checkC20(c C20Case, rec *obs.Recorder) *obs.Violation {
 	shape := c.Authority.Key() + c.Later.Key()
 	chunks := []int{0, 1, c.Chunk}
 	cells := 0
-	for _, op := range []string{"builder", "new", "append", "append-reloaded"} {
+	for _, op := range []string{"builder", "builder+keyid", "builder+keyid-first", "new", "append", "append-reloaded"} {
 		base := fresh
 		if op == "append-reloaded" {
 			base = reloaded
@@ -203,7 +211,7 @@ func checkC20(c C20Case, rec *obs.Recorder) *obs.Violation {
 	rec.Count("fault_cells", cells)
 	rec.Label("shape")
 	rec.Sample(map[string]any{"authority": c.Authority.Text(), "later_block": c.Later.Text(), "cells": cells,
-		"cell_space": "op{builder,new,append,append-reloaded} x k{0..31,32,33,64,96} x failure{err,eof,unexpected} x chunking{all,1 byte," + fmt.Sprint(c.Chunk) + "}"})
+		"cell_space": "op{builder,builder+keyid,builder+keyid-first,new,append,append-reloaded} x k{0..31,32,33,64,96} x failure{err,eof,unexpected} x chunking{all,1 byte," + fmt.Sprint(c.Chunk) + "}"})
 	return nil
 }
 
